@@ -973,9 +973,20 @@ class _FuncTyper:
                         if fi is not None:
                             found = True
                             if fi.is_property:
-                                # calling the value of a property (e.g. gatedef.ideal_unitary(...))
+                                # calling the value of a property (e.g. gate.gate_def(...), gatedef.ideal_unitary(...))
                                 self.site(fn, [fi], "property", bt)
-                                out.add("?")
+                                fld = ix.property_field(c, name)
+                                resolved = False
+                                if fld:
+                                    for x in T.field_types(c, fld):
+                                        if x in ix.classes:
+                                            for k2 in [x] + ix.subclasses(x):
+                                                ci = ix.find_method(k2, "__call__")
+                                                if ci is not None and ci not in targets:
+                                                    targets.append(ci)
+                                                    resolved = True
+                                if not resolved:
+                                    out.add("?")
                                 continue
                             if fi not in targets:
                                 targets.append(fi)
